@@ -158,8 +158,17 @@ pub fn gen_sm(rng: &mut Rng, k: &Knobs) -> Value {
     if rng.chance(1, 4) { put("consecutive_failed_install_attempts", if weird { json!({"int": wint(rng).to_string()}) } else { json!({"int": rng.below(5).to_string()}) }); }
     if rng.chance(1, 3) { put("install_plan_id", json!({"str": hx(*rng.pick(&["plan-a", "plan-b"]))}));
                           if rng.chance(3, 4) { put("update_first_seen_time", json!({"int": ((base_w / 1000) - rng.below(1_000_000_000) as i128).to_string()})); } }
-    if rng.chance(1, 4) { put("update_finish_time", json!({"int": ((base_w / 1000) + rng.range(-20_000_000, 5_000_000) as i128).to_string()}));
-                          if rng.chance(4, 5) { put("target_version", json!({"str": hx(if rng.chance(2, 3) { &os_version } else { "9.9.9.9" })})); } }
+    // the two reboot-bookkeeping keys are generated independently of each other (either may be absent or mistyped)
+    if rng.chance(1, 4) { put("update_finish_time", if weird && rng.chance(1, 2) { if rng.chance(1, 2) { json!({"str": hx("soon")}) } else { json!({"int": wint(rng).to_string()}) } }
+                                                     else { json!({"int": ((base_w / 1000) + rng.range(-20_000_000, 5_000_000) as i128).to_string()}) }); }
+    if rng.chance(1, 4) { put("target_version", if weird && rng.chance(1, 4) { json!({"int": "7"}) } else { json!({"str": hx(if rng.chance(2, 3) { &os_version } else { "9.9.9.9" })}) }); }
+    if weird {
+        // any key may hold a value of the wrong type
+        for k in ["last_update_time", "server_dictated_poll_interval", "consecutive_failed_update_checks", "consecutive_failed_install_attempts",
+                  "install_plan_id", "update_first_seen_time"] {
+            if rng.chance(1, 8) { put(k, match rng.below(3) { 0 => json!({"str": hx("12")}), 1 => json!({"bool": true}), _ => json!({"int": wint(rng).to_string()}) }); }
+        }
+    }
     for (i, id) in app_ids.iter().enumerate() {
         if rng.chance(1, 3) {
             let v = match rng.below(6) {
